@@ -25,6 +25,9 @@ void UseOptional(const T& v, const U& u) {
   a = b;
   a = std::move(d);
   Optional<U> ou{u};
+  Optional<U> empty_u;
+  a = empty_u;
+  a = std::move(empty_u);
   a = ou;
   a = std::move(ou);
   a = v;
@@ -94,6 +97,14 @@ struct Tab { Entry<std::string, 1> a; Entry<int, 2, DeletedEntry> b; Entry<int, 
 void UseEntry() {
   Tab t; t.a = std::string{"s"}; t.c = 3; (void)t.a.empty(); t.a.clear(); (void)t.b.empty(); t.b.clear(); (void)static_cast<bool>(t.b);
   Entry<std::string, 1> x{std::string{"k"}}; Entry<std::string, 1> y{x}; y = x; y = std::move(x);
+  // comparisons with operands of a type DERIVED from Optional (overload resolution must still pick the Optional/Optional forms)
+  Entry<int, 1> e1, e2{3};
+  Optional<int> o{2};
+  bool r = (e1 == e2) | (e1 != e2) | (e1 < e2) | (e1 > e2) | (e1 <= e2) | (e1 >= e2) |
+           (o == e1) | (o != e1) | (o < e1) | (o > e1) | (o <= e1) | (o >= e1) |
+           (e1 == o) | (e1 != o) | (e1 < o) | (e1 > o) | (e1 <= o) | (e1 >= o) |
+           (e1 == 3) | (3 == e1) | (e1 < 3) | (3 < e1) | (e1 > 3) | (3 > e1) | (e1 <= 3) | (3 <= e1) | (e1 >= 3) | (3 >= e1) | (e1 != 3) | (3 != e1);
+  (void)r;
 }
 
 struct Cmp { int v; bool operator==(const Cmp& o) const { return v == o.v; } bool operator<(const Cmp& o) const { return v < o.v; } Cmp() = default; Cmp(int x) : v{x} {} };
